@@ -126,7 +126,7 @@ def file_metadata_merge(g1: int, g2: int, u1: int, u2: int, chiA: bool, chiB: bo
     the first non-empty one; a file-wide fission spectrum on either side is dropped (flag 0) and every fissile nuclide
     of both holders is flagged as carrying its own spectrum instead; without file-wide chi no nuclide is touched;
     inputs are not changed."""
-    assume(f1 >= 0 and f2 >= 0)
+    # (was: assume(f1 >= 0 and f2 >= 0) - dropped in the assumption review: the clause holds for any flag value)
     A = file_meta(g1, u1, "LIB-A" if labelA else "", np.array([x, 1.0 - x]) if chiA else None, ["ISOAA"])
     B = file_meta(g2, u2, "LIB-B", np.array([x, 1.0 - x]) if chiB else None, ["ISOAB", "ISOAC"])
     hA, hB = holder(f1, c1), holder(f2, c2)
